@@ -169,7 +169,7 @@ def run(prog, tier, res):
                 v = strip(an.terms.rvalue(x)) if si != "t" else None
                 atoms = [atom_str(a) for (d, rel, vals) in an.atoms_at(bi) for a in sy.atoms(d, rel, vals)]
                 is_marker_arm = any(a.startswith("variant ") and a.endswith("in ('WrapAroundMarker',)") and " notin " not in a for a in atoms)
-                not_marker_arm = any(a.startswith("variant ") and "notin ('WrapAroundMarker',)" in a for a in atoms)
+                not_marker_arm = any(a.startswith("variant ") and ("notin ('WrapAroundMarker',)" in a or a.endswith(" in ('TimestampCounter',)")) for a in atoms)
                 arms.append((v, is_marker_arm, not_marker_arm))
             good = 0
             for v, is_m, not_m in arms:
